@@ -1435,6 +1435,7 @@ impl ObservationService {
         let observation_request = Self::optic_observation_request(request)?;
         let artifact = Self::observe(runtime, provenance, engine, observation_request)
             .map_err(|err| Self::optic_observation_error(request, err))?;
+        Self::validate_optic_provenance_commit(request, &artifact)?;
         let witness_basis = Self::optic_witness_basis(provenance, request, &artifact)?;
         let read_identity = ReadIdentity::new(
             request.optic_id,
@@ -1650,6 +1651,30 @@ impl ObservationService {
                 "provenance coordinate belongs to a different worldline",
             )),
         }
+    }
+
+    /// A provenance coordinate names a commit, not only a tick: the reading
+    /// must be of that commit or the read is obstructed.
+    fn validate_optic_provenance_commit(
+        request: &ObserveOpticRequest,
+        artifact: &ObservationArtifact,
+    ) -> Result<(), Box<OpticObstruction>> {
+        let EchoCoordinate::Worldline {
+            at: CoordinateAt::Provenance(reference),
+            ..
+        } = &request.coordinate
+        else {
+            return Ok(());
+        };
+        if reference.commit_hash == artifact.resolved.commit_hash {
+            return Ok(());
+        }
+        Err(Self::optic_obstruction(
+            request,
+            OpticObstructionKind::ConflictingFrontier,
+            None,
+            "provenance coordinate names a commit this worldline does not record at that tick",
+        ))
     }
 
     fn optic_observation_error(
